@@ -79,6 +79,9 @@ def main() -> int:
 
             ctx.deadline = time.time() + budget
         mod.run(ctx)
+    for key in getattr(mod, "REQUIRED", ()):
+        if ctx.counters[key] == 0:
+            ctx.inconclusive_because(f"deciding monitor '{key}' was never evaluated")
     if hasattr(mod, "describe"):
         mod.describe(ctx)
     return common.finish(ctx)
